@@ -128,6 +128,12 @@ StringDictionaryXBW::StringDictionaryXBW(IteratorDictString *it) {
   for (uint i = 0; i < len; i++)
     delete nodes[i];
   delete[] occ;
+
+  // Build the queryable structure from the arrays, exactly as load() does
+  // from a saved dictionary
+  std::stringstream arrays;
+  saveArrays(arrays);
+  xbw = new XBW(arrays);
 }
 
 unsigned long StringDictionaryXBW::locate(uchar *str, uint strLen) {
@@ -233,6 +239,10 @@ void StringDictionaryXBW::save(std::ostream &out) {
   saveValue<uint64_t>(out, elements);
   saveValue<uint32_t>(out, maxlength);
 
+  saveArrays(out);
+}
+
+void StringDictionaryXBW::saveArrays(std::ostream &out) {
   out.write((char *)&len, sizeof(uint));
   out.write((char *)mapping, 257 * sizeof(uint));
   out.write((char *)alpha, len * sizeof(uint));
